@@ -21,13 +21,16 @@ func intType(n int64) px.Type { return types.NewIntegerType(n, n) }
 // alias-only type sets of `addts` / `@tsadd` never reach: the recursion into a member that is a type set, Annotatable
 // members, the constructor entries of Object members, a type set among the declared types of ResolveResolvables).
 //
-//	Zoo<n> { Car = Integer[1,1], Eng = Object{a}, Inner = TypeSet Zoo<n>::Inner { Wheel = Integer[3,3], Ax = Object{b} } }
+//	Zon<n> { Car = Integer[1,1], Eng = Object{a}, Inner = TypeSet Zon<n>::Inner { Wheel = Integer[3,3], Ax = Object{b} } }
+//	and, handed over in the same call, the Object type Zob<n> {c} that belongs to no type set (resolveTypes binds the
+//	constructor of a declared / added Object type itself)
 //
 //	MASK   which of the names below are looked up (and must miss) BEFORE the definition:
 //	       bit 0 type Z::Car, 1 type Z::Eng, 2 type Z::Inner, 3 type Z::Inner::Wheel, 4 type Z::Inner::Ax, 5 type Z,
 //	       6 constructor Z::Eng, 7 constructor Z::Inner::Ax,
 //	       8 type Z::Nope, 9 type Z::Inner::Nope, 10 type Z::Wheel (a member of the inner set is no member of the outer),
-//	       11 constructor Z::Car (an alias member has no constructor)
+//	       11 constructor Z::Car (an alias member has no constructor),
+//	       12 type Zob<n>, 13 constructor Zob<n> (bound afterwards, like bits 0-7), 14 type Z::Zob<n> (absent)
 //	CASE   0 as declared | 1 lower case | 2 upper case     the spelling of those lookups
 //	HOW    load | has | entry                              px.Load / Loader.HasEntry / Loader.LoadEntry
 //	DEPTH  0: lookups and definition in the same context; 1: the lookups in a fork of it; 2: the definition in a fork, the
@@ -38,10 +41,10 @@ func intType(n int64) px.Type { return types.NewIntegerType(n, n) }
 //	VIA    add: px.AddTypes(ctx, typeSet) | rr: px.RegisterResolvableType(typeSet); px.ResolveResolvables(ctx)
 //
 // Afterwards (property text: "a failed lookup followed by a definition makes the name resolvable", "names differing only in
-// letter case denote one entry", "discovery returns exactly the bound names … each once"): the eight names of bits 0-7
+// letter case denote one entry", "discovery returns exactly the bound names … each once"): the names of bits 0-7, 12, 13
 // resolve in every spelling — the aliases to their Integer, the Objects to an Object type of that name, the type sets to a
-// type set of that name, the constructors to a function —, HasEntry says so, the four names of bits 8-11 stay absent,
-// Discover lists each of the eight exactly once and nothing else below Z in those two namespaces; adding the equal type set
+// type set of that name, the constructors to a function —, HasEntry says so, the names of bits 8-11, 14 stay absent,
+// Discover lists each of the ten exactly once and nothing else below Z in those two namespaces; adding the equal type set
 // once more is a no-op (write-once: equal re-definition) and changes no answer.
 // Classes: ts-member-sticky-miss, ts-member-wrong, ts-discover, ts-nonmember-found, ts-known-member-replaced,
 // ts-readd-rejected, fault.
@@ -49,7 +52,7 @@ var tsNestCounter int64
 
 type nestName struct {
 	ns   px.Namespace
-	rel  string // relative to the type set's name ("" = the type set itself)
+	rel  string // relative to the type set's name ("" = the type set itself); "@" = the Object type outside the type set
 	kind string // alias N | object | tset | ctor | none
 	n    int64
 }
@@ -60,6 +63,7 @@ var nestNames = []nestName{
 	{px.NsConstructor, "::Eng", "ctor", 0}, {px.NsConstructor, "::Inner::Ax", "ctor", 0},
 	{px.NsType, "::Nope", "none", 0}, {px.NsType, "::Inner::Nope", "none", 0}, {px.NsType, "::Wheel", "none", 0},
 	{px.NsConstructor, "::Car", "none", 0},
+	{px.NsType, "@", "object", 0}, {px.NsConstructor, "@", "ctor", 0}, {px.NsType, "::@", "none", 0},
 }
 
 func execTsNest(c px.Context, args []sx.Sexp) core.Result {
@@ -76,7 +80,17 @@ func execTsNest(c px.Context, args []sx.Sexp) core.Result {
 		return core.Result{Out: "bad-op", Pred: "n/a"}
 	}
 	n := atomic.AddInt64(&tsNestCounter, 1)
-	ts := fmt.Sprintf("Zon%d", n)
+	ts, ob := fmt.Sprintf("Zon%d", n), fmt.Sprintf("Zob%d", n)
+	// full: the name a table entry stands for
+	full := func(nn nestName) string {
+		switch nn.rel {
+		case "@":
+			return ob
+		case "::@":
+			return ts + "::" + ob
+		}
+		return ts + nn.rel
+	}
 	spell := func(s string) string {
 		switch cs {
 		case 1:
@@ -110,21 +124,22 @@ func execTsNest(c px.Context, args []sx.Sexp) core.Result {
 	  Car => Integer[1,1], Eng => Object[{attributes => {a => Integer}}],
 	  Inner => TypeSet[{name => '%s::Inner', version => '1.0.0', pcore_version => '1.0.0', types => {
 	    Wheel => Integer[3,3], Ax => Object[{attributes => {b => String}}] }}] }}]`, ts, ts)
-	readd := false
+	objSrc := fmt.Sprintf(`Object[{name => '%s', attributes => {c => Integer}}]`, ob)
+	var o px.Type
 	define := func(dc px.Context) {
 		t := dc.ParseType(src)
+		if o == nil {
+			// (the Object type is the same object in the re-definition: its constructor is a function made per type object,
+			// and two functions are two values — an equal Object type parsed again is accepted as the type and rejected,
+			// with a reported error, as the constructor)
+			o = dc.ParseType(objSrc)
+		}
 		if via == "rr" {
-			if readd {
-				// (what ParseType hands out is a type set whose init hash is not evaluated yet: ResolveResolvables binds a
-				// declared type BEFORE it resolves it, and typeSet.Equals of an unevaluated type set against the bound one
-				// dereferences its nil version — a runtime panic, reported to the coordinator as an observation.  The equal
-				// re-definition is therefore declared in evaluated form.)
-				t = t.(px.ResolvableType).Resolve(dc)
-			}
 			px.RegisterResolvableType(t.(px.ResolvableType))
+			px.RegisterResolvableType(o.(px.ResolvableType))
 			px.ResolveResolvables(dc)
 		} else {
-			px.AddTypes(dc, t)
+			px.AddTypes(dc, t, o)
 		}
 	}
 	// what a name resolves to, as a short description
@@ -152,9 +167,9 @@ func execTsNest(c px.Context, args []sx.Sexp) core.Result {
 			}
 			return fmt.Sprintf("alias %s%s = Integer[%d, %d]", ts, nn.rel, nn.n, nn.n)
 		case "object":
-			return "object " + ts + nn.rel
+			return "object " + full(nn)
 		case "tset":
-			return "tset " + ts + nn.rel
+			return "tset " + full(nn)
 		case "ctor":
 			return "ctor"
 		}
@@ -174,8 +189,8 @@ func execTsNest(c px.Context, args []sx.Sexp) core.Result {
 				defIn = base.Fork()
 			}
 			for i, nn := range nestNames {
-				if mask&(1<<uint(i)) != 0 && lookup(before, nn.ns, spell(ts+nn.rel), how) {
-					fail("ts-nonmember-found", "%s %s found before anything was defined", nn.ns, spell(ts+nn.rel))
+				if mask&(1<<uint(i)) != 0 && lookup(before, nn.ns, spell(full(nn)), how) {
+					fail("ts-nonmember-found", "%s %s found before anything was defined", nn.ns, spell(full(nn)))
 				}
 			}
 			if pre == 1 {
@@ -185,7 +200,7 @@ func execTsNest(c px.Context, args []sx.Sexp) core.Result {
 			check := func(round string) {
 				for _, sp := range []func(string) string{func(s string) string { return s }, strings.ToLower, strings.ToUpper} {
 					for _, nn := range nestNames {
-						name := sp(ts + nn.rel)
+						name := sp(full(nn))
 						tn := px.NewTypedName(nn.ns, name)
 						v, ok := px.Load(defIn, tn)
 						has := defIn.Loader().HasEntry(tn)
@@ -212,11 +227,11 @@ func execTsNest(c px.Context, args []sx.Sexp) core.Result {
 						}
 					}
 				}
-				prefix := strings.ToLower(ts)
+				prefix, obl := strings.ToLower(ts), strings.ToLower(ob)
 				count := map[string]int{}
 				for _, tn := range defIn.Loader().Discover(defIn, func(tn px.TypedName) bool {
 					nm := strings.ToLower(tn.Name())
-					return (tn.Namespace() == px.NsType || tn.Namespace() == px.NsConstructor) && (nm == prefix || strings.HasPrefix(nm, prefix+"::"))
+					return (tn.Namespace() == px.NsType || tn.Namespace() == px.NsConstructor) && (nm == prefix || nm == obl || strings.HasPrefix(nm, prefix+"::"))
 				}) {
 					count[string(tn.Namespace())+" "+strings.ToLower(tn.Name())]++
 				}
@@ -226,7 +241,7 @@ func execTsNest(c px.Context, args []sx.Sexp) core.Result {
 						continue
 					}
 					bound++
-					if k := string(nn.ns) + " " + strings.ToLower(ts+nn.rel); count[k] != 1 {
+					if k := string(nn.ns) + " " + strings.ToLower(full(nn)); count[k] != 1 {
 						fail("ts-discover", "%s: Discover lists %s %d times", round, k, count[k])
 					}
 				}
@@ -236,7 +251,6 @@ func execTsNest(c px.Context, args []sx.Sexp) core.Result {
 			}
 			check("after the definition")
 			// write-once: the equal type set once more is a no-op
-			readd = true
 			if r := safely(func() { px.DoWithContext(defIn, define) }); r != "" {
 				fail("ts-readd-rejected", "the equal type set added once more: %s", r)
 			} else {
@@ -256,14 +270,14 @@ func execTsNest(c px.Context, args []sx.Sexp) core.Result {
 }
 
 func genTsNest(g *core.G) {
-	// every single name missed before, none, all members, all names; thorough: also every pair of the eight bound names
-	masks := []int{0, 0xff, 0xfff}
+	// every single name missed before, none, all members, all names; thorough: also every pair of the first 14 names
+	masks := []int{0, 0x30ff, 0x7fff}
 	for i := range nestNames {
 		masks = append(masks, 1<<uint(i))
 	}
 	if g.Thorough() {
-		for i := 0; i < 8; i++ {
-			for j := i + 1; j < 8; j++ {
+		for i := 0; i < 14; i++ {
+			for j := i + 1; j < 14; j++ {
 				masks = append(masks, 1<<uint(i)|1<<uint(j))
 			}
 		}
@@ -274,7 +288,7 @@ func genTsNest(g *core.G) {
 				for depth := 0; depth < 3; depth++ {
 					for pre := 0; pre < 2; pre++ {
 						for _, via := range []string{"add", "rr"} {
-							if !g.Thorough() && (cs+depth+pre)%2 == 1 && mask != 0xfff {
+							if !g.Thorough() && (cs+depth+pre)%2 == 1 && mask != 0x7fff {
 								continue // quick tier: half of the combinations for the single-name masks
 							}
 							g.Emit(fmt.Sprintf("@tsnest %d %d %s %d %d %s", mask, cs, how, depth, pre, via))
